@@ -18,7 +18,9 @@ DPm == V("dpath", 0, <<PathT(<<Coerce(Sa), Part("list", Null, Null, Null, None)>
 PathLit3 == MapV(<< <<StrV(PathCode), MapV(<< <<StrV(PathCode), I(1)>> >>)>> >>)     \* {"path": {"path": 1}}
 PathLit4 == MapV(<< <<Sa, MapV(<< <<StrV(PathCode), ListV(<<I(1)>>)>> >>)>> >>)        \* {"a": {"path": [1]}}
 PathLit5 == ListV(<<PathLit, MapV(<< <<Sb, PathLit>> >>)>>)                           \* [{"path": ["a"]}, {"b": {"path": ["a"]}}]
-Vals1 == <<I(1), Sa, V("float", 12, <<>>), BoolV(TRUE), None, ListV(<<I(1), Sa>>), MapV(<< <<Sa, I(1)>> >>),
+PathLit6 == MapV(<< <<Sb, I(1)>>, <<StrV(PathCode), ListV(<<Sa>>)>> >>)                \* {"b": 1, "path": ["a"]}
+PathLit7 == MapV(<< <<Sa, MapV(<< <<Sb, I(1)>>, <<StrV(PathCode), ListV(<<I(1)>>)>> >>)>> >>)   \* {"a": {"b": 1, "path": [1]}}
+Vals1 == <<PathLit6, PathLit7, I(1), Sa, V("float", 12, <<>>), BoolV(TRUE), None, ListV(<<I(1), Sa>>), MapV(<< <<Sa, I(1)>> >>),
            PathLit, PathLit2, PathLit3, PathLit4, PathLit5, DP, DPm, ListV(<<DP, I(7)>>), MapV(<< <<Sa, DPm>> >>)>>
 Types1 == <<TypeV(TInt), TypeV(TStr), TypeV(TDict)>>
 TypeLists == <<ListV(<<TypeV(TInt)>>), ListV(<<TypeV(TInt), TypeV(TStr)>>), ListV(<<TypeV(TBool), TypeV(TList), TypeV(TFloat)>>)>>
